@@ -162,7 +162,7 @@ func runC19(r *Run) {
 	if r.Tier == "thorough" {
 		n = 150000
 	}
-	indents := []string{"", " ", "  ", "\t", "--", "é", "% ", "%d", "|%", "%s%v", "\\n"}
+	indents := []string{"", " ", "  ", "\t", "--", "é", "% ", "%d", "|%", "%s%v", "\\n", "| ", "|", "-> ", "-", "\t ", "ab", "a", "abab"}
 	for i := 0; i < n; i++ {
 		rng = NewRng(mix(r.Seed, strHash("C19"), uint64(i)))
 		t := genTree(rng.Intn(6))
@@ -817,8 +817,11 @@ func runC13(r *Run) {
 func runC12(r *Run) {
 	r.Rule = "one Evaluator / Filter shared by 16 goroutines, each making 20 (thorough 200) calls on the same and on different data, for expressions covering every operator incl. first use of matches / not matches, quantifiers, unknown value and hooks; evaluators are also created concurrently; the binary is built with the race detector, whose happens-before verdict does not depend on the schedule observed; predicate: no race report, every concurrent result equals the sequential one, the shared tree (VerifAST) is unchanged; distinct = (expression, datum index)"
 	exprs := []string{"A == 1", "B != a", "1 in LI", "L contains a", "B is empty", "M is not empty", "B matches `^a+`", "B not matches `b$`", "any L as x { x matches `o` }", "all M as k, v { v == 1 and k matches `^k` }",
-		"zz == 1", "M.zz != 1", "P == 1", "I == a", "any LS as s { s.A == 1 or s.B matches `x` }", "not A == 1 and B matches `^a+`", "X.B matches `[`"}
-	data := []interface{}{S1{A: 1, B: "aaa", L: []string{"a", "foo"}, M: map[string]int{"k1": 1}}, &S1{A: 2, B: ""}, S2{LS: []S1{{A: 1}, {B: "x"}}, X: S1{B: "q"}}, S3{LI: []interface{}{1, nil, "a"}}, map[string]interface{}{"A": 1, "B": "ab", "L": []interface{}{"o"}}, nil}
+		"zz == 1", "M.zz != 1", "P == 1", "I == a", "any LS as s { s.A == 1 or s.B matches `x` }", "not A == 1 and B matches `^a+`", "X.B matches `[`",
+		"any a.b.c as v { gate == A and v == x }", "all a.b.c as i, v { v != zz and i != 9 }", "any a.b.c.d.e as v { v == 1 }", "any a.b.m as k, v { k == p and v == 1 }", "any a.b.c as v { any a.b.c as w { w == v } }"}
+	data := []interface{}{S1{A: 1, B: "aaa", L: []string{"a", "foo"}, M: map[string]int{"k1": 1}}, &S1{A: 2, B: ""}, S2{LS: []S1{{A: 1}, {B: "x"}}, X: S1{B: "q"}}, S3{LI: []interface{}{1, nil, "a"}}, map[string]interface{}{"A": 1, "B": "ab", "L": []interface{}{"o"}}, nil,
+		map[string]interface{}{"gate": "A", "a": map[string]interface{}{"b": map[string]interface{}{"c": []interface{}{"y", "x", "z"}, "m": map[string]interface{}{"p": 1, "q": 2}}}},
+		map[string]interface{}{"gate": "B", "a": map[string]interface{}{"b": map[string]interface{}{"c": map[string]interface{}{"d": map[string]interface{}{"e": []int{3, 2, 1}}}}}}}
 	calls := 20
 	if r.Tier == "thorough" {
 		calls = 200
